@@ -183,9 +183,12 @@ Section FileCache.
   | TLoad (d : dims)                 (* cache.load_tile(t, dimensions=d) *)
   | TCached (d : dims)               (* cache.is_cached(t, dimensions=d) *)
   | TStore (d : dims) (b : bytes)    (* t.source = <image b>; cache.store_tile(t, dimensions=d) *)
-  | TRemove (d : dims).              (* cache.remove_tile(t, dimensions=d) *)
+  | TRemove (d : dims)               (* cache.remove_tile(t, dimensions=d) *)
+  | TStoreFail (d : dims) (b : bytes).
+                                     (* t.source = <image b>; cache.store_tile(t, dimensions=d) while the first
+                                        write_atomic of the call raises OSError (ENOSPC ...) *)
 
-  (* state, tile object, return value (None for calls that return None) *)
+  (* state, tile object, return value (None for calls that return None; Some false for a store that raised) *)
   Definition tcall_step (s : fs) (t : tile) (c : tcall) : fs * tile * option bool :=
     match c with
     | TLoad d =>
@@ -216,6 +219,21 @@ Section FileCache.
            (fstore_at s p b, mkTile (t_coord t1) (t_loc t1) (t_src t1) wrote, None)
     | TRemove d =>
       let (t1, p) := t_location t d in (fs_del s p, t1, None)
+    | TStoreFail d b =>
+      let t0 := mkTile (t_coord t) (t_loc t) (Some b) (t_stored t) in
+      if t_stored t0 then (s, t0, None)                               (* returns before anything is written *)
+      else let (t1, p) := t_location t0 d in
+           (* _store: `if os.path.islink(location): os.unlink(location)` runs before the write; the exception
+              leaves tile_buffer at its yield: tile.stored stays False *)
+           let failed (q : path) := ((if fs_islink s q then fs_del s q else s), t1, Some false) in
+           match link, mono b with
+           | LNone, _ => failed p
+           | _, None => failed p
+           | _, Some c =>
+             if fs_exists s (sc_path ext c)
+             then (fstore_at s p b, t1, None)                         (* only linked: no write_atomic call, no fault *)
+             else failed (sc_path ext c)                              (* the colour file could not be written *)
+           end
     end.
 
   (* what the harness observes after every call: return value, tile.location, content of tile.source, tile.stored *)
